@@ -326,7 +326,7 @@ func runC01(c *Ctx) {
 		maxRules, maxLinks = 3, 3
 	}
 	c.Exhaustive = true
-	c.Rule = fmt.Sprintf("16 model families (ACL, superuser, RBAC, RBAC over names with coinciding concatenations, resource roles, domains, domains with a role-name matching function, deny-override, allow-and-deny, priority, ABAC attributes, eval() rules, keyMatch/regexMatch, in-operator, EnforceContext with two policy types, negation; plus a policy of 40 eval() rules) x all policies of <= %d rules (ordered sequences for priority) x all grouping sets of <= %d links over the family's universe x all requests of its universe (bounded-exhaustive), plus seeded random models/matchers/graphs; reference = Lean specEnforce (no govaluate, effector or role manager); non-trivial = a case with both an allowed and a denied request; distinct = (family, policy, links)", maxRules, maxLinks)
+	c.Rule = fmt.Sprintf("%d model families (ACL, superuser, RBAC, RBAC over names with coinciding concatenations under 14 separators in both orders, resource roles, domains, domains with a role-name matching function, deny-override, allow-and-deny, allow-override with an eft column, priority, ABAC attributes, eval() rules, keyMatch/regexMatch, in-operator, EnforceContext with two policy types, negation; plus a policy of 40 eval() rules and one eval() text shared by two rules; per case EnforceWithMatcher(own matcher) and BatchEnforce must agree with Enforce) x all policies of <= %d rules (ordered sequences for priority) x all grouping sets of <= %d links over the family's universe x all requests of its universe (bounded-exhaustive), plus seeded random models/matchers/graphs; reference = Lean specEnforce (no govaluate, effector or role manager); non-trivial = a case with both an allowed and a denied request; distinct = (family, policy, links)", len(c01Families()), maxRules, maxLinks)
 	for _, f := range c01Families() {
 		// policies: per ptype subsets (ordered sequences for the priority effect)
 		var polChoices []map[string][][]string
